@@ -379,6 +379,11 @@ func concTask(r *prng.Rand, w drive.CWorld, cat *model.Catalog, typePool []int) 
 			fix(v)
 		}
 		t := drive.CTask{Kind: "write", Writer: concWriterKind(r), Imports: concImports(r, w), Ops: drive.DocOps(vals)}
+		if r.Chance(1, 4) {
+			// annotations taken from the shared token list (a prefix of it, passed as it is), plus one of the task's own
+			own := model.Sym{Text: []string{"alpha", "beta", "gamma"}[r.Intn(3)], HasText: true}
+			t.Ops = append([]drive.WOp{{Op: "annots-shared", T: model.Kind(r.Range(1, 4))}, {Op: "annot", Sym: &own}, {Op: "int", V: model.NewInt(1)}}, t.Ops...)
+		}
 		if r.Chance(1, 4) && len(t.Ops) > 0 {
 			// a caller mistake somewhere in the sequence: the call fails, the writer stays failed, and the messages it
 			// reports from then on are part of this task's output
